@@ -168,3 +168,13 @@ Definition cout_eqb (a b : cout) : bool :=
 Definition run_case (x : config * list op) : list cout * N :=
   let '(c, h) := x in
   let '(s, rs) := run c init h in (canon [] 0 rs, nblocks s).
+
+(* index of the first output on which the model and the reported outputs differ (for shrinking) *)
+Fixpoint first_diff (a b : list cout) (i : N) : option N :=
+  match a, b with
+  | [], [] => None
+  | x :: a', y :: b' => if cout_eqb x y then first_diff a' b' (N.succ i) else Some i
+  | _, _ => Some i
+  end.
+Definition first_diff_case (x : config * list op) (expected : list cout) : option N :=
+  first_diff (fst (run_case x)) expected 0.
